@@ -49,6 +49,10 @@ structure Field where
   startAt : Option Nat
   tags : List String          -- a set: sorted, no duplicates
   maxValue : Nat
+  /-- model-only: the implementation's floating-point `int(log(max_value, 2)) + 1` gives one bit more than the exact
+  bit length for this `max_value` (possible only from `SPARE_FROM` on; set from the implementation's own behaviour
+  before every `assign_fields`, see `markSpare`) -/
+  spare : Bool := false
   deriving Repr, DecidableEq
 
 structure Entry where
@@ -214,8 +218,13 @@ def call (st : State) (fv : Reqs) (kw : List (Ident × Int)) : Except Err (State
 /-- `((1 << length) - 1) << start_at` -/
 def rangeMask (len start : Nat) : Nat := ((1 <<< len) - 1) <<< start
 
-/-- `int(log(max_value, 2)) + 1` (agrees with the float computation below 2^48) -/
+/-- the exact bit length `floor(log2(max_value)) + 1`: what `int(log(max_value, 2)) + 1` computes when the
+floating-point logarithm is exact enough (always so below `SPARE_FROM`) -/
 def autoLen (maxValue : Nat) : Nat := Nat.log2 maxValue + 1
+
+/-- from here on the double-precision `log(v, 2)` may round up to the next integer (first seen at 2^48 - 1), which
+makes the automatic length one bit *wider* than the exact bit length; never narrower -/
+def SPARE_FROM : Nat := 2 ^ 44
 
 def fieldBits (f : Field) : Nat :=
   match f.length, f.startAt with
@@ -237,7 +246,12 @@ def firstFit (L len assigned : Nat) : Option Nat :=
 def Field.chosenLen (f : Field) : Nat :=
   match f.length with
   | some l => l
-  | none => autoLen f.maxValue
+  | none => if f.spare && decide (SPARE_FROM ≤ f.maxValue) then autoLen f.maxValue + 1 else autoLen f.maxValue
+
+/-- model-only step before `assign_fields`: record for which `max_value`s the implementation's floating-point length
+has a spare bit (`g`, observed on the implementation itself).  Changes nothing the code can see. -/
+def markSpare (g : Nat → Bool) (es : List Entry) : List Entry :=
+  es.map fun e => { e with field := { e.field with spare := g e.field.maxValue } }
 
 /-- `_assign_field` -/
 def assignField (st : State) (assigned : Nat) (ident : Ident) (fv : Reqs) : Except Err (State × Nat) :=
@@ -530,6 +544,8 @@ def runOp (op : String) (j : Json) (st : State) (fv : Reqs) : R (State × Option
     | .ok (st', fv') => pure (st', some fv', withState st' [("ok", reqsToJson fv')])
     | .error e => pure (st, none, withState st [("err", Json.str (errName e))])
   | "assign" =>
+    let spare ← (← opt j "spare" fun x => do (← asArr x).mapM asNat).getD [] |> pure
+    let st := { st with entries := markSpare (fun m => spare.contains m) st.entries }
     match assignFieldsP st with
     | (st', none) => pure (st', none, withState st' [("ok", Json.null)])
     | (st', some e) => pure (st', none, withState st' [("err", Json.str (errName e))])
